@@ -73,6 +73,31 @@ CLAIMED['C19'] = {
     'design': '§5 C19',
 }
 
+CLAIMED['C03'] = {
+    'text': 'Static, exhaustive over all paths of the 27 exported &mut operations and the 6 transactional-layer functions '
+            '(dev and release cfg): no failing exit (Err, or Ok carrying InsertionOutcome::Skipped) is reached with Tds '
+            'storage mutated and not restored from a snapshot taken while it was clean. Interprocedural, path-sensitive '
+            'dataflow with result-edge correlation, snapshot recognition through closures / Options / tuples, and '
+            'owner contracts. Every internal error return is covered at once — the quantifier the suite cannot reach.',
+    'note': 'Trusted: rustc MIR; derive(Clone) of Tds; field-sensitive MOD summaries with external hand-out / mutating '
+            'method classification; 1 restore-by-inverse table entry, 1 infeasible edge, 9 assumed-infeasible exits with '
+            'reasons (3 value correlations, 6 = open item F2). Non-storage receiver fields are not covered.',
+    'technique': 'interprocedural rollback (snapshot/restore) dataflow over rustc MIR',
+    'design': '§4.2, §5 C03',
+}
+CLAIMED['C08'] = {
+    'text': 'Static: in all 5 repair step functions a successful flip reaches the enqueueing of new cells only through the '
+            'counter increment and the within-budget edge (the other edge fails); no exported function reaches a repair '
+            'driver without is_admissible_under having answered true (least fixed point over the call graph, including '
+            'the InvalidTopology variant gate); every Ok of the public repair entry points lies behind the success edge of '
+            'the post-condition verifier (greatest fixed point); the Delaunay verifiers drop no checker result. '
+            'Decides budget / admissibility / post-condition gating, not convergence or uniqueness.',
+    'note': 'Trusted: rustc MIR; the four flip-predicate post-condition checkers and validate_cell_delaunay are leaves '
+            '(their numerical verdict is C04, not applicable).',
+    'technique': 'must-pass-through (dominance) + call-graph fixed points over rustc MIR',
+    'design': '§5 C08',
+}
+
 NOT_APPLICABLE = {
     'C04': 'verdict is the sign of floating-point in-sphere determinants vs exact arithmetic (numerical); the only structural handle is a delegation shape that a correct re-implementation would break',
     'C10': 'correctness of point location is a sign pattern of orientation determinants along a walk (geometric); loop bound is covered under C19',
